@@ -1,3 +1,780 @@
 import StunVerif.Attr.Typed
+import StunVerif.Spec.Attr
+import StunVerif.Lemmas.BE
 namespace StunVerif
+
+/-! ### `Except` plumbing -/
+
+@[simp] theorem exc_bind_ok {ε α β} (a : α) (f : α → Except ε β) :
+    (Except.ok a >>= f) = f a := rfl
+@[simp] theorem exc_bind_err {ε α β} (e : ε) (f : α → Except ε β) :
+    ((Except.error e : Except ε α) >>= f) = .error e := rfl
+
+/-! ### small byte facts -/
+
+theorem and7_toNat (b : UInt8) : (b &&& 7).toNat = b.toNat % 8 := by
+  rw [UInt8.toNat_and]
+  exact Nat.and_two_pow_sub_one_eq_mod b.toNat 3
+
+theorem u8_eq_iff (a : UInt8) (n : Nat) (hn : n < 256) : a = UInt8.ofNat n ↔ a.toNat = n := by
+  constructor
+  · intro h; subst h; simp; omega
+  · intro h; apply UInt8.toNat_inj.mp; simp; omega
+
+theorem be16_eq_zero {a b : UInt8} : be16 a b = 0 ↔ a = 0 ∧ b = 0 := by
+  constructor
+  · intro h
+    have : be16 a b = be16 0 0 := by simpa [be16] using h
+    exact be16_inj this
+  · rintro ⟨rfl, rfl⟩; rfl
+
+theorem xor_cancel (a b : UInt8) : (a ^^^ b) ^^^ b = a := by
+  rw [UInt8.xor_assoc, UInt8.xor_self, UInt8.xor_zero]
+
+theorem xorBytes_length (v c : Bytes) : (xorBytes v c).length = min v.length c.length := by
+  induction v generalizing c with
+  | nil => simp [xorBytes]
+  | cons a as ih =>
+    cases c with
+    | nil => simp [xorBytes]
+    | cons b bs => simp [xorBytes, ih]
+
+theorem xorBytes_invol (v c : Bytes) (h : v.length ≤ c.length) : xorBytes (xorBytes v c) c = v := by
+  induction v generalizing c with
+  | nil => cases c <;> simp [xorBytes]
+  | cons a as ih =>
+    cases c with
+    | nil => simp at h
+    | cons b bs =>
+      simp only [xorBytes, xor_cancel]
+      rw [ih bs (by simpa using h)]
+
+theorem u16List_eq (v : Bytes) : u16List v = Spec.u16s v := by
+  fun_induction u16List v with
+  | case1 a b rest ih => simp [Spec.u16s, be16, ih]
+  | case2 v h =>
+    unfold Spec.u16s
+    split
+    · exact absurd rfl (h _ _ _)
+    · rfl
+
+theorem u16List_length (v : Bytes) : (u16List v).length = v.length / 2 := by
+  fun_induction u16List v with
+  | case1 a b rest ih => simp [ih]; omega
+  | case2 v h =>
+    match v, h with
+    | [], _ => rfl
+    | [_], _ => simp
+    | a :: b :: r, h => exact absurd rfl (h a b r)
+
+/-! ### sub-decoders -/
+
+/-- a non-fault error -/
+def NF {α} (r : Except PErr α) : Prop := ∃ e, r = .error e ∧ e.isFault = false
+
+theorem addrFromValue_char (v : Bytes) :
+    (Spec.addrOk v = true ∧ addrFromValue v = .ok (Spec.addrFields v)) ∨
+    (Spec.addrOk v = false ∧ NF (addrFromValue v)) := by
+  unfold NF
+  match v with
+  | [] | [_] | [_, _] | [_, _, _] => simp [Spec.addrOk, addrFromValue, PErr.isFault]
+  | x :: fam :: p0 :: p1 :: rest =>
+    simp only [addrFromValue]
+    by_cases h1 : fam = 1
+    · subst h1
+      by_cases hl : rest.length = 4
+      · left
+        have ht : rest.take 4 = rest := List.take_of_length_le (by omega)
+        simp [Spec.addrOk, Spec.byteAt, checkLen, hl, Spec.addrFields, be16, ht]
+      · right
+        simp [Spec.addrOk, Spec.byteAt, checkLen, hl]
+        split
+        · simp [PErr.isFault]
+        · split
+          · simp [PErr.isFault]
+          · omega
+    · by_cases h2 : fam = 2
+      · subst h2
+        by_cases hl : rest.length = 16
+        · left
+          simp [Spec.addrOk, Spec.byteAt, checkLen, hl, Spec.addrFields, be16]
+        · right
+          simp [Spec.addrOk, Spec.byteAt, checkLen, hl]
+          split
+          · simp [PErr.isFault]
+          · split
+            · simp [PErr.isFault]
+            · omega
+      · right
+        have h1' : fam.toNat ≠ 1 := fun h => h1 (UInt8.toNat_inj.mp h)
+        have h2' : fam.toNat ≠ 2 := fun h => h2 (UInt8.toNat_inj.mp h)
+        simp [Spec.addrOk, Spec.byteAt, h1, h2, h1', h2', PErr.isFault]
+
+
+theorem algoEntryOk4 (a b c d : UInt8) :
+    Spec.algoEntryOk [a, b, c, d] = true ↔ (be16 a b = 1 ∨ be16 a b = 2) ∧ c = 0 ∧ d = 0 := by
+  have hc : c.toNat = 0 ↔ c = 0 := by
+    constructor
+    · intro h; exact UInt8.toNat_inj.mp h
+    · rintro rfl; rfl
+  have hd : d.toNat = 0 ↔ d = 0 := by
+    constructor
+    · intro h; exact UInt8.toNat_inj.mp h
+    · rintro rfl; rfl
+  simp [Spec.algoEntryOk, Spec.byteAt, be16, hc, hd, and_assoc]
+
+theorem pwAlgoRead_char (a b c d : UInt8) (rest : Bytes) :
+    (Spec.algoEntryOk [a, b, c, d] = true ∧ pwAlgoRead (a :: b :: c :: d :: rest) = .ok (be16 a b)) ∨
+    (Spec.algoEntryOk [a, b, c, d] = false ∧ NF (pwAlgoRead (a :: b :: c :: d :: rest))) := by
+  unfold NF
+  by_cases h : Spec.algoEntryOk [a, b, c, d] = true
+  · left
+    refine ⟨h, ?_⟩
+    obtain ⟨h1, rfl, rfl⟩ := (algoEntryOk4 a b c d).mp h
+    rcases h1 with h1 | h1 <;> simp [pwAlgoRead, h1, be16_eq_zero]
+  · right
+    refine ⟨by simpa using h, ?_⟩
+    rw [algoEntryOk4] at h
+    simp only [pwAlgoRead]
+    split
+    · simp [PErr.isFault]
+    · rename_i h0
+      have h0' : be16 c d = 0 := by simpa using h0
+      rw [be16_eq_zero] at h0'
+      split
+      · exact absurd ⟨Or.inl ‹_›, h0'⟩ h
+      · split
+        · exact absurd ⟨Or.inr ‹_›, h0'⟩ h
+        · simp [PErr.isFault]
+
+theorem chunks4_cons (a b c d : UInt8) (rest : Bytes) :
+    Spec.chunks4 (a :: b :: c :: d :: rest) = [a, b, c, d] :: Spec.chunks4 rest := by
+  simp [Spec.chunks4]
+
+theorem pwAlgosLoop_char (fuel : Nat) (v : Bytes) (h4 : v.length % 4 = 0) (hf : v.length ≤ 4 * fuel) :
+    ((Spec.chunks4 v).all Spec.algoEntryOk = true ∧
+      pwAlgosLoop fuel v = .ok ((Spec.chunks4 v).map fun e => Spec.byteAt e 0 * 256 + Spec.byteAt e 1)) ∨
+    ((Spec.chunks4 v).all Spec.algoEntryOk = false ∧ NF (pwAlgosLoop fuel v)) := by
+  induction fuel generalizing v with
+  | zero =>
+    have : v = [] := List.length_eq_zero_iff.mp (by omega)
+    subst this
+    left; simp [Spec.chunks4, pwAlgosLoop]
+  | succ fuel ih =>
+    match v, h4, hf with
+    | [], _, _ => left; simp [Spec.chunks4, pwAlgosLoop]
+    | [_], h4, _ => simp at h4
+    | [_, _], h4, _ => simp at h4
+    | [_, _, _], h4, _ => simp at h4
+    | a :: b :: c :: d :: rest, h4, hf =>
+      have h4' : rest.length % 4 = 0 := by simp at h4; omega
+      have hf' : rest.length ≤ 4 * fuel := by simp at hf; omega
+      rw [chunks4_cons]
+      simp only [pwAlgosLoop, List.drop_succ_cons, List.drop_zero, List.all_cons, List.map_cons]
+      rcases pwAlgoRead_char a b c d rest with ⟨e1, e2⟩ | ⟨e1, e, e2, e3⟩
+      · rcases ih rest h4' hf' with ⟨r1, r2⟩ | ⟨r1, e, r2, r3⟩
+        · left; simp [e1, e2, r1, r2, Spec.byteAt, be16]
+        · right; exact ⟨by simp [r1], e, by simp [e2, r2], r3⟩
+      · right; exact ⟨by simp [e1], e, by simp [e2], e3⟩
+
+/-! ### characterisation of every decoder -/
+
+set_option linter.unusedSimpArgs false
+
+/-- the three possible outcomes of a decoder, in terms of the RFC table -/
+def DecChar (k : Kind) (raw : RawAttr) : Prop :=
+    (raw.ty ≠ Spec.code k ∧ fromRaw k raw = .error .wrongImpl) ∨
+    (raw.ty = Spec.code k ∧ Spec.accept k raw.value = true ∧
+      fromRaw k raw = .ok (Spec.fields k raw.value)) ∨
+    (raw.ty = Spec.code k ∧ Spec.accept k raw.value = false ∧ NF (fromRaw k raw))
+
+/-- the simple kinds: type check, length range, optional UTF-8 / multiple-of-4 check -/
+macro "dec_simple" raw:ident k:term : tactic => `(tactic| (
+  unfold DecChar NF
+  by_cases hty : RawAttr.ty $raw = Spec.code $k
+  · simp only [Spec.code] at hty
+    simp [hty, fromRaw, Spec.code, Kind.code, RawAttr.checkTypeAndLen, checkLen, Spec.accept,
+      Spec.fields, textOf, u16List_eq, fpXorConst]
+    repeat' split
+    all_goals simp [*, PErr.isFault]
+    all_goals (try simp only [← List.length_eq_zero_iff])
+    all_goals omega
+  · simp only [Spec.code] at hty
+    simp [hty, fromRaw, Spec.code, Kind.code, RawAttr.checkTypeAndLen]))
+
+theorem dec_username (raw : RawAttr) : DecChar .username raw := by dec_simple raw .username
+theorem dec_mi (raw : RawAttr) : DecChar .messageIntegrity raw := by dec_simple raw .messageIntegrity
+theorem dec_realm (raw : RawAttr) : DecChar .realm raw := by dec_simple raw .realm
+theorem dec_nonce (raw : RawAttr) : DecChar .nonce raw := by dec_simple raw .nonce
+theorem dec_software (raw : RawAttr) : DecChar .software raw := by dec_simple raw .software
+theorem dec_altdom (raw : RawAttr) : DecChar .alternateDomain raw := by dec_simple raw .alternateDomain
+theorem dec_mi256 (raw : RawAttr) : DecChar .messageIntegritySha256 raw := by dec_simple raw .messageIntegritySha256
+theorem dec_userhash (raw : RawAttr) : DecChar .userhash raw := by dec_simple raw .userhash
+theorem dec_priority (raw : RawAttr) : DecChar .priority raw := by dec_simple raw .priority
+theorem dec_usecand (raw : RawAttr) : DecChar .useCandidate raw := by dec_simple raw .useCandidate
+theorem dec_fp (raw : RawAttr) : DecChar .fingerprint raw := by dec_simple raw .fingerprint
+theorem dec_icecd (raw : RawAttr) : DecChar .iceControlled raw := by dec_simple raw .iceControlled
+theorem dec_icecg (raw : RawAttr) : DecChar .iceControlling raw := by dec_simple raw .iceControlling
+theorem dec_unknown (raw : RawAttr) : DecChar .unknownAttributes raw := by dec_simple raw .unknownAttributes
+
+theorem dec_xma (raw : RawAttr) : DecChar .xorMappedAddress raw := by
+  unfold DecChar
+  by_cases hty : raw.ty = 0x20
+  · right
+    rcases addrFromValue_char raw.value with ⟨h1, h2⟩ | ⟨h1, e, h2, h3⟩
+    · left
+      simp [hty, fromRaw, Spec.code, Kind.code, RawAttr.checkTypeAndLen, checkLen, Spec.accept,
+        Spec.fields, h1, h2]
+    · right
+      refine ⟨by simp [hty, Spec.code], by simp [Spec.accept, h1], e, ?_, h3⟩
+      simp [hty, fromRaw, Kind.code, RawAttr.checkTypeAndLen, checkLen, h2]
+  · left
+    simp [hty, fromRaw, Spec.code, Kind.code, RawAttr.checkTypeAndLen]
+
+theorem dec_as (raw : RawAttr) : DecChar .alternateServer raw := by
+  unfold DecChar
+  by_cases hty : raw.ty = 0x8023
+  · right
+    rcases addrFromValue_char raw.value with ⟨h1, h2⟩ | ⟨h1, e, h2, h3⟩
+    · left
+      simp [hty, fromRaw, Spec.code, Kind.code, RawAttr.checkTypeAndLen, checkLen, Spec.accept,
+        Spec.fields, h1, h2]
+    · right
+      refine ⟨by simp [hty, Spec.code], by simp [Spec.accept, h1], e, ?_, h3⟩
+      simp [hty, fromRaw, Kind.code, RawAttr.checkTypeAndLen, checkLen, h2]
+  · left
+    simp [hty, fromRaw, Spec.code, Kind.code, RawAttr.checkTypeAndLen]
+
+theorem dec_pwas (raw : RawAttr) : DecChar .passwordAlgorithms raw := by
+  unfold DecChar
+  by_cases hty : raw.ty = 0x8002
+  · right
+    by_cases hl : raw.value.length < 4
+    · right
+      refine ⟨by simp [hty, Spec.code], ?_, ?_⟩
+      · simp [Spec.accept]; intro h; omega
+      · exact ⟨.truncated 4 raw.value.length, by simp [hty, fromRaw, Kind.code, RawAttr.checkTypeAndLen, checkLen, hl], rfl⟩
+    · by_cases h4 : raw.value.length % 4 = 0
+      · rcases pwAlgosLoop_char raw.value.length raw.value h4 (by omega) with ⟨h1, h2⟩ | ⟨h1, e, h2, h3⟩
+        · left
+          refine ⟨by simp [hty, Spec.code], ?_, ?_⟩
+          · simp only [Spec.accept, h1]; simp [h4]; omega
+          · simp [hty, fromRaw, Kind.code, RawAttr.checkTypeAndLen, checkLen, hl, h4, h2, Spec.fields]
+        · right
+          refine ⟨by simp [hty, Spec.code], ?_, e, ?_, h3⟩
+          · simp only [Spec.accept, h1]; simp
+          · simp [hty, fromRaw, Kind.code, RawAttr.checkTypeAndLen, checkLen, hl, h4, h2]
+      · right
+        refine ⟨by simp [hty, Spec.code], ?_, ?_⟩
+        · simp [Spec.accept]; intro _ h; omega
+        · exact ⟨.invalid, by simp [hty, fromRaw, Kind.code, RawAttr.checkTypeAndLen, checkLen, hl, h4], rfl⟩
+  · left
+    simp [hty, fromRaw, Spec.code, Kind.code, RawAttr.checkTypeAndLen]
+
+theorem algoEntryOk_length {e : Bytes} (h : Spec.algoEntryOk e = true) : e.length = 4 := by
+  simp [Spec.algoEntryOk] at h
+  exact h.1.1.1
+
+theorem dec_pwa (raw : RawAttr) : DecChar .passwordAlgorithm raw := by
+  unfold DecChar
+  obtain ⟨ty, v⟩ := raw
+  by_cases hty : ty = 0x1D
+  · right
+    subst hty
+    simp only [Spec.code, Spec.accept, Spec.fields, true_and]
+    match v with
+    | [] | [_] | [_, _] | [_, _, _] =>
+      right
+      exact ⟨by simp [Spec.algoEntryOk], _, by simp [fromRaw, Kind.code, RawAttr.checkTypeAndLen, checkLen]; rfl, rfl⟩
+    | a :: b :: c :: d :: rest =>
+      have hc : ∀ n, ¬ (n + 1 + 1 + 1 + 1 < 4) := by intro n; omega
+      by_cases h4 : rest.length % 4 = 0
+      · rcases pwAlgoRead_char a b c d rest with ⟨h1, h2⟩ | ⟨h1, e, h2, h3⟩
+        · cases rest with
+          | nil =>
+            left
+            refine ⟨h1, ?_⟩
+            simp [fromRaw, Kind.code, RawAttr.checkTypeAndLen, checkLen, h2, Spec.byteAt, be16]
+          | cons x xs =>
+            right
+            refine ⟨?_, .tooLarge 4 (a :: b :: c :: d :: x :: xs).length, ?_, rfl⟩
+            · simp [Spec.algoEntryOk]
+            · simp at h4
+              have : (xs.length + 1 + 4) % 4 = 0 := by omega
+              simp [fromRaw, Kind.code, RawAttr.checkTypeAndLen, checkLen, h2, this, hc]
+        · right
+          refine ⟨?_, e, ?_, h3⟩
+          · cases rest with
+            | nil => exact h1
+            | cons x xs => simp [Spec.algoEntryOk]
+          · have : (rest.length + 4) % 4 = 0 := by omega
+            simp [fromRaw, Kind.code, RawAttr.checkTypeAndLen, checkLen, h2, this, hc]
+      · right
+        refine ⟨?_, .invalid, ?_, rfl⟩
+        · cases rest with
+          | nil => simp at h4
+          | cons x xs => simp [Spec.algoEntryOk]
+        · have : (rest.length + 4) % 4 ≠ 0 := by omega
+          simp [fromRaw, Kind.code, RawAttr.checkTypeAndLen, checkLen, this, hc]
+  · left
+    simp [hty, fromRaw, Spec.code, Kind.code, RawAttr.checkTypeAndLen]
+
+theorem nat_and7 (n : Nat) : n &&& 7 = n % 8 := Nat.and_two_pow_sub_one_eq_mod n 3
+
+theorem dec_ec (raw : RawAttr) : DecChar .errorCode raw := by
+  unfold DecChar
+  obtain ⟨ty, v⟩ := raw
+  by_cases hty : ty = 9
+  · right
+    subst hty
+    simp only [Spec.code, Spec.accept, Spec.fields, true_and]
+    match v with
+    | [] | [_] | [_, _] | [_, _, _] =>
+      right
+      exact ⟨by simp, _, by simp [fromRaw, Kind.code, RawAttr.checkTypeAndLen, checkLen]; rfl, rfl⟩
+    | a :: b :: c :: d :: rest =>
+      have hc : ∀ n, ¬ (n + 1 + 1 + 1 + 1 < 4) := by intro n; omega
+      by_cases hl : rest.length ≤ 763
+      · have hl' : ¬ (767 < rest.length + 1 + 1 + 1 + 1) := by omega
+        by_cases hr : (3 ≤ c.toNat % 8 ∧ c.toNat % 8 ≤ 6) ∧ d.toNat ≤ 99
+        · by_cases hu : utf8Valid rest = true
+          · left
+            obtain ⟨⟨r1, r2⟩, r3⟩ := hr
+            have r2' : c.toNat % 8 < 7 := by omega
+            have r3' : ¬ (99 < d.toNat) := by omega
+            simp [fromRaw, Kind.code, RawAttr.checkTypeAndLen, checkLen, hc, hl', Spec.byteAt,
+              and7_toNat, nat_and7, textOf, hu, r1, r2, r2', r3, r3']
+            omega
+          · right
+            refine ⟨by simp [hu], .invalid, ?_, rfl⟩
+            obtain ⟨⟨r1, r2⟩, r3⟩ := hr
+            have r2' : c.toNat % 8 < 7 := by omega
+            have r3' : ¬ (99 < d.toNat) := by omega
+            simp [fromRaw, Kind.code, RawAttr.checkTypeAndLen, checkLen, hc, hl', 
+              and7_toNat, nat_and7, textOf, hu, r1, r2', r3']
+        · right
+          refine ⟨?_, .invalid, ?_, rfl⟩
+          · simp [Spec.byteAt]; intro _ h1 h2 h3; exact absurd ⟨⟨h1, h2⟩, h3⟩ hr
+          · simp [fromRaw, Kind.code, RawAttr.checkTypeAndLen, checkLen, hc, hl', and7_toNat, nat_and7]
+            intro h1 h2; omega
+      · right
+        refine ⟨?_, .tooLarge 767 (a :: b :: c :: d :: rest).length, ?_, rfl⟩
+        · simp; intro _ h; omega
+        · have hl' : 767 < rest.length + 1 + 1 + 1 + 1 := by omega
+          simp [fromRaw, Kind.code, RawAttr.checkTypeAndLen, checkLen, hc, hl']
+  · left
+    simp [hty, fromRaw, Spec.code, Kind.code, RawAttr.checkTypeAndLen]
+
+theorem decChar (k : Kind) (raw : RawAttr) : DecChar k raw := by
+  cases k
+  · exact dec_username raw
+  · exact dec_mi raw
+  · exact dec_ec raw
+  · exact dec_unknown raw
+  · exact dec_realm raw
+  · exact dec_nonce raw
+  · exact dec_mi256 raw
+  · exact dec_pwa raw
+  · exact dec_userhash raw
+  · exact dec_xma raw
+  · exact dec_priority raw
+  · exact dec_usecand raw
+  · exact dec_pwas raw
+  · exact dec_altdom raw
+  · exact dec_software raw
+  · exact dec_as raw
+  · exact dec_fp raw
+  · exact dec_icecd raw
+  · exact dec_icecg raw
+
+/-! ### encoder-side list facts -/
+
+theorem u16s_flatMap_enc16 (ts : List Nat) (h : ts.all (· < 65536) = true) :
+    Spec.u16s (ts.flatMap enc16) = ts := by
+  induction ts with
+  | nil => rfl
+  | cons t ts ih =>
+    simp only [List.all_cons, Bool.and_eq_true, decide_eq_true_eq] at h
+    have h1 := h.1
+    simp [enc16, Spec.u16s, ih h.2]
+    omega
+
+theorem flatMap_enc16_length (ts : List Nat) : (ts.flatMap enc16).length = 2 * ts.length := by
+  induction ts with
+  | nil => rfl
+  | cons t ts ih => simp [List.flatMap_cons, ih]; omega
+
+theorem u16s_length (v : Bytes) : (Spec.u16s v).length = v.length / 2 := by
+  rw [← u16List_eq, u16List_length]
+
+theorem u16s_lt (v : Bytes) : (Spec.u16s v).all (· < 65536) = true := by
+  fun_induction Spec.u16s v with
+  | case1 a b rest ih =>
+    have := be16_lt a b
+    simp only [be16] at this
+    simp [ih, this]
+  | case2 v h => simp
+
+theorem flatMap_enc16_u16s (v : Bytes) (h : v.length % 2 = 0) :
+    (Spec.u16s v).flatMap enc16 = v := by
+  fun_induction Spec.u16s v with
+  | case1 a b rest ih =>
+    have h' : rest.length % 2 = 0 := by simp at h; omega
+    have := enc16_be16 a b
+    simp only [be16] at this
+    simp [List.flatMap_cons, this, ih h']
+  | case2 v hv =>
+    match v, hv, h with
+    | [], _, _ => rfl
+    | [_], _, h => simp at h
+    | a :: b :: r, hv, _ => exact absurd rfl (hv a b r)
+
+/-- the wire form of one PASSWORD-ALGORITHMS entry -/
+def algoEntry (a : Nat) : Bytes := enc16 a ++ enc16 0
+
+theorem algoEntry_ok (a : Nat) (h : a = 1 ∨ a = 2) :
+    ∃ x y, algoEntry a = [x, y, 0, 0] ∧ Spec.algoEntryOk [x, y, 0, 0] = true ∧
+      Spec.byteAt [x, y, 0, 0] 0 * 256 + Spec.byteAt [x, y, 0, 0] 1 = a := by
+  rcases h with rfl | rfl
+  · exact ⟨0, 1, by decide, by decide, by decide⟩
+  · exact ⟨0, 2, by decide, by decide, by decide⟩
+
+theorem chunks4_flatMap (as : List Nat) (h : as.all (fun a => a == 1 || a == 2) = true) :
+    (Spec.chunks4 (as.flatMap algoEntry)).all Spec.algoEntryOk = true ∧
+    (Spec.chunks4 (as.flatMap algoEntry)).map
+      (fun e => Spec.byteAt e 0 * 256 + Spec.byteAt e 1) = as := by
+  induction as with
+  | nil => simp [Spec.chunks4]
+  | cons a as ih =>
+    simp only [List.all_cons, Bool.and_eq_true, Bool.or_eq_true, beq_iff_eq] at h
+    obtain ⟨x, y, e1, e2, e3⟩ := algoEntry_ok a h.1
+    obtain ⟨i1, i2⟩ := ih h.2
+    rw [List.flatMap_cons, e1]
+    simp only [List.cons_append, List.nil_append, chunks4_cons, List.all_cons, List.map_cons, e2, e3, i1, i2]
+    simp
+
+theorem flatMap_algoEntry_length (as : List Nat) : (as.flatMap algoEntry).length = 4 * as.length := by
+  induction as with
+  | nil => rfl
+  | cons t ts ih => simp [List.flatMap_cons, ih, algoEntry]; omega
+
+theorem chunks4_length (v : Bytes) : (Spec.chunks4 v).length = v.length / 4 := by
+  fun_induction Spec.chunks4 v with
+  | case1 a b c d rest ih => simp [ih]; omega
+  | case2 v hv =>
+    match v, hv with
+    | [], _ | [_], _ | [_, _], _ | [_, _, _], _ => simp
+    | a :: b :: c :: d :: r, hv => exact absurd rfl (hv a b c d r)
+
+theorem chunks4_fields (v : Bytes) (h4 : v.length % 4 = 0)
+    (h : (Spec.chunks4 v).all Spec.algoEntryOk = true) :
+    ((Spec.chunks4 v).map (fun e => Spec.byteAt e 0 * 256 + Spec.byteAt e 1)).flatMap algoEntry = v ∧
+    ((Spec.chunks4 v).map (fun e => Spec.byteAt e 0 * 256 + Spec.byteAt e 1)).all
+      (fun a => a == 1 || a == 2) = true := by
+  fun_induction Spec.chunks4 v with
+  | case1 a b c d rest ih =>
+    have h4' : rest.length % 4 = 0 := by simp at h4; omega
+    simp only [List.all_cons, Bool.and_eq_true] at h
+    obtain ⟨i1, i2⟩ := ih h4' h.2
+    obtain ⟨e1, rfl, rfl⟩ := (algoEntryOk4 a b c d).mp h.1
+    have e3 := enc16_be16 a b
+    simp only [be16] at e3 e1
+    refine ⟨?_, ?_⟩
+    · simp only [List.map_cons, List.flatMap_cons, i1]
+      simp [Spec.byteAt, algoEntry, e3]
+      rfl
+    · simp only [List.map_cons, List.all_cons, i2]
+      simp [Spec.byteAt, e1]
+  | case2 v hv =>
+    match v, hv, h4 with
+    | [], _, _ => simp
+    | [_], _, h4 | [_, _], _, h4 | [_, _, _], _, h4 => simp at h4
+    | a :: b :: c :: d :: r, hv, _ => exact absurd rfl (hv a b c d r)
+
+/-! ### encoders against the RFC table -/
+
+theorem pwas_valueBytes (as : List Nat) :
+    (AttrVal.passwordAlgorithms as).valueBytes = as.flatMap algoEntry := rfl
+
+theorem addr_valueBytes_ok (a : Addr) (h : a.wf = true) : Spec.addrOk a.valueBytes = true := by
+  obtain ⟨v6, ip, port⟩ := a
+  cases v6 <;> simp [Addr.wf] at h <;>
+    simp [Spec.addrOk, Addr.valueBytes, Spec.byteAt, h.1]
+
+theorem accept_valueBytes (v : AttrVal) (h : v.inLimit = true) :
+    Spec.accept v.kind v.valueBytes = true := by
+  cases v with
+  | errorCode code reason =>
+    simp [AttrVal.inLimit] at h
+    obtain ⟨⟨⟨h1, h2⟩, h3⟩, h4⟩ := h
+    simp [AttrVal.kind, AttrVal.valueBytes, Spec.accept, Spec.byteAt, h4]
+    omega
+  | unknownAttributes ts =>
+    simp only [AttrVal.kind, AttrVal.valueBytes, Spec.accept, flatMap_enc16_length]
+    simp
+  | passwordAlgorithm a =>
+    simp [AttrVal.inLimit] at h
+    rcases h with rfl | rfl <;> decide
+  | xorMappedAddress a => exact addr_valueBytes_ok a h
+  | alternateServer a => exact addr_valueBytes_ok a h
+  | passwordAlgorithms as =>
+    simp [AttrVal.inLimit] at h
+    obtain ⟨⟨h1, h2⟩, h3⟩ := h
+    have h3' : as.all (fun a => a == 1 || a == 2) = true := by simpa using h3
+    have hne : 1 ≤ as.length := by
+      cases as with
+      | nil => exact absurd rfl h1
+      | cons _ _ => simp
+    simp only [AttrVal.kind, Spec.accept, pwas_valueBytes, (chunks4_flatMap as h3').1,
+      flatMap_algoEntry_length]
+    simp; omega
+  | fingerprint crc =>
+    simp [AttrVal.inLimit] at h
+    simp [AttrVal.kind, AttrVal.valueBytes, Spec.accept, xorBytes_length, h, fpXorConst]
+  | _ =>
+    first
+    | (simp [AttrVal.inLimit, AttrVal.kind, AttrVal.valueBytes, Spec.accept] at h ⊢; done)
+    | (simp [AttrVal.inLimit, AttrVal.kind, AttrVal.valueBytes, Spec.accept] at h ⊢; omega)
+    | (simp [AttrVal.inLimit, AttrVal.kind, AttrVal.valueBytes, Spec.accept] at h ⊢; simp [h]; done)
+
+theorem addrFields_valueBytes (a : Addr) (h : a.wf = true) : Spec.addrFields a.valueBytes = a := by
+  obtain ⟨v6, ip, port⟩ := a
+  cases v6 <;> simp [Addr.wf] at h <;>
+    simp [Spec.addrFields, Addr.valueBytes, Spec.byteAt, enc16] <;> omega
+
+theorem fields_valueBytes (v : AttrVal) (h : v.inLimit = true) :
+    Spec.fields v.kind v.valueBytes = v := by
+  cases v with
+  | errorCode code reason =>
+    simp [AttrVal.inLimit] at h
+    obtain ⟨⟨⟨h1, h2⟩, h3⟩, h4⟩ := h
+    simp [AttrVal.kind, AttrVal.valueBytes, Spec.fields, Spec.byteAt]
+    omega
+  | unknownAttributes ts =>
+    simp [AttrVal.inLimit] at h
+    have h2 : ts.all (· < 65536) = true := by simpa using h.2
+    simp only [AttrVal.kind, AttrVal.valueBytes, Spec.fields, u16s_flatMap_enc16 ts h2]
+  | passwordAlgorithm a =>
+    simp [AttrVal.inLimit] at h
+    rcases h with rfl | rfl <;> decide
+  | xorMappedAddress a => simp only [AttrVal.kind, AttrVal.valueBytes, Spec.fields, addrFields_valueBytes a h]
+  | alternateServer a => simp only [AttrVal.kind, AttrVal.valueBytes, Spec.fields, addrFields_valueBytes a h]
+  | passwordAlgorithms as =>
+    simp [AttrVal.inLimit] at h
+    have h3' : as.all (fun a => a == 1 || a == 2) = true := by simpa using h.2
+    simp only [AttrVal.kind, Spec.fields, pwas_valueBytes, (chunks4_flatMap as h3').2]
+  | fingerprint crc =>
+    simp [AttrVal.inLimit] at h
+    have := xorBytes_invol crc fpXorConst (by simp [fpXorConst, h])
+    simpa [AttrVal.kind, AttrVal.valueBytes, Spec.fields, fpXorConst] using this
+  | priority p =>
+    simp [AttrVal.inLimit] at h
+    simp [AttrVal.kind, AttrVal.valueBytes, Spec.fields, beNat_encBE 4 p (by simpa using h)]
+  | iceControlled p =>
+    simp [AttrVal.inLimit] at h
+    simp [AttrVal.kind, AttrVal.valueBytes, Spec.fields, beNat_encBE 8 p (by simpa using h)]
+  | iceControlling p =>
+    simp [AttrVal.inLimit] at h
+    simp [AttrVal.kind, AttrVal.valueBytes, Spec.fields, beNat_encBE 8 p (by simpa using h)]
+  | _ => simp [AttrVal.kind, AttrVal.valueBytes, Spec.fields]
+
+theorem fields_kind (k : Kind) (val : Bytes) : (Spec.fields k val).kind = k := by
+  cases k <;> rfl
+
+theorem valueBytes_fields (k : Kind) (val : Bytes) (h : Spec.accept k val = true)
+    (hk : k ≠ .xorMappedAddress ∧ k ≠ .alternateServer ∧ k ≠ .errorCode) :
+    (Spec.fields k val).valueBytes = val := by
+  cases k with
+  | xorMappedAddress => exact absurd rfl hk.1
+  | alternateServer => exact absurd rfl hk.2.1
+  | errorCode => exact absurd rfl hk.2.2
+  | unknownAttributes =>
+    simp [Spec.accept] at h
+    simp only [Spec.fields, AttrVal.valueBytes, flatMap_enc16_u16s val h]
+  | passwordAlgorithm =>
+    simp only [Spec.accept] at h
+    have hl := algoEntryOk_length h
+    match val, hl, h with
+    | [a, b, c, d], _, h =>
+      obtain ⟨e1, rfl, rfl⟩ := (algoEntryOk4 a b c d).mp h
+      have e3 := enc16_be16 a b
+      simp only [be16] at e3
+      simp [Spec.fields, AttrVal.valueBytes, Spec.byteAt, e3]
+      rfl
+  | passwordAlgorithms =>
+    simp [Spec.accept] at h
+    have h3 : (Spec.chunks4 val).all Spec.algoEntryOk = true := by simpa using h.2
+    simp only [Spec.fields, pwas_valueBytes, (chunks4_fields val h.1.2 h3).1]
+  | priority =>
+    simp [Spec.accept] at h
+    simp only [Spec.fields, AttrVal.valueBytes, encBE_beNat 4 val h]
+  | iceControlled =>
+    simp [Spec.accept] at h
+    simp only [Spec.fields, AttrVal.valueBytes, encBE_beNat 8 val h]
+  | iceControlling =>
+    simp [Spec.accept] at h
+    simp only [Spec.fields, AttrVal.valueBytes, encBE_beNat 8 val h]
+  | fingerprint =>
+    simp [Spec.accept] at h
+    have := xorBytes_invol val fpXorConst (by simp [fpXorConst, h])
+    simpa [AttrVal.valueBytes, Spec.fields, fpXorConst] using this
+  | useCandidate =>
+    simp [Spec.accept] at h
+    simp [Spec.fields, AttrVal.valueBytes, h]
+  | _ => simp [Spec.fields, AttrVal.valueBytes]
+
+theorem addrFields_wf (val : Bytes) (h : Spec.addrOk val = true) : (Spec.addrFields val).wf = true := by
+  match val with
+  | [] | [_] | [_, _] | [_, _, _] => simp [Spec.addrOk] at h
+  | x :: fam :: p0 :: p1 :: rest =>
+    have := be16_lt p0 p1
+    simp only [be16] at this
+    simp [Spec.addrOk, Spec.byteAt] at h
+    rcases h with ⟨h1, h2⟩ | ⟨h1, h2⟩ <;>
+      simp [Spec.addrFields, Addr.wf, Spec.byteAt, h1, h2, this]
+
+theorem fields_inLimit (k : Kind) (val : Bytes) (h : Spec.accept k val = true)
+    (hl : val.length < 65536 ∨
+      (k ≠ .alternateDomain ∧ k ≠ .unknownAttributes ∧ k ≠ .passwordAlgorithms)) :
+    (Spec.fields k val).inLimit = true := by
+  cases k with
+  | alternateDomain =>
+    simp [Spec.accept] at h
+    have : val.length < 65536 := by
+      rcases hl with hl | hl
+      · exact hl
+      · exact absurd rfl hl.1
+    simp [Spec.fields, AttrVal.inLimit, h, this]
+  | unknownAttributes =>
+    have hlen : val.length < 65536 := by
+      rcases hl with hl | hl
+      · exact hl
+      · exact absurd rfl hl.2.1
+    have h2 := u16s_lt val
+    simp only [Spec.fields, AttrVal.inLimit, u16s_length, h2]
+    simp; omega
+  | passwordAlgorithms =>
+    have hlen : val.length < 65536 := by
+      rcases hl with hl | hl
+      · exact hl
+      · exact absurd rfl hl.2.2
+    simp [Spec.accept] at h
+    have h3 : (Spec.chunks4 val).all Spec.algoEntryOk = true := by simpa using h.2
+    have h4 := (chunks4_fields val h.1.2 h3).2
+    have h5 := chunks4_length val
+    simp only [Spec.fields, AttrVal.inLimit, h4, List.length_map, h5, List.isEmpty_iff]
+    have : List.map (fun e => Spec.byteAt e 0 * 256 + Spec.byteAt e 1) (Spec.chunks4 val) ≠ [] := by
+      intro hh
+      have := congrArg List.length hh
+      simp [h5] at this
+      omega
+    simp [this]
+    refine ⟨?_, by omega⟩
+    intro hh
+    rw [hh] at h5
+    simp at h5
+    omega
+  | errorCode =>
+    match val with
+    | [] | [_] | [_, _] | [_, _, _] => simp [Spec.accept] at h
+    | a :: b :: c :: d :: rest =>
+      simp [Spec.accept, Spec.byteAt] at h
+      simp [Spec.fields, AttrVal.inLimit, Spec.byteAt, h]
+      omega
+  | passwordAlgorithm =>
+    simp only [Spec.accept] at h
+    have hl := algoEntryOk_length h
+    match val, hl, h with
+    | [a, b, c, d], _, h =>
+      obtain ⟨e1, rfl, rfl⟩ := (algoEntryOk4 a b c d).mp h
+      simp only [be16] at e1
+      simp [Spec.fields, AttrVal.inLimit, Spec.byteAt, e1]
+  | xorMappedAddress => exact addrFields_wf val h
+  | alternateServer => exact addrFields_wf val h
+  | priority =>
+    simp [Spec.accept] at h
+    have := beNat_lt val
+    simp [Spec.fields, AttrVal.inLimit]
+    rw [h] at this; simpa using this
+  | iceControlled =>
+    simp [Spec.accept] at h
+    have := beNat_lt val
+    simp [Spec.fields, AttrVal.inLimit]
+    rw [h] at this; simpa using this
+  | iceControlling =>
+    simp [Spec.accept] at h
+    have := beNat_lt val
+    simp [Spec.fields, AttrVal.inLimit]
+    rw [h] at this; simpa using this
+  | fingerprint =>
+    simp [Spec.accept] at h
+    simp [Spec.fields, AttrVal.inLimit, xorBytes_length, h]
+  | _ => simp [Spec.accept] at h; simp [Spec.fields, AttrVal.inLimit, h]
+
+/-! ### consequences of the characterisation (the C08 statements) -/
+
+theorem fromRaw_ok_iff (k : Kind) (raw : RawAttr) (v : AttrVal) :
+    fromRaw k raw = .ok v ↔
+      raw.ty = Spec.code k ∧ Spec.accept k raw.value = true ∧ v = Spec.fields k raw.value := by
+  rcases decChar k raw with ⟨h1, h2⟩ | ⟨h1, h2, h3⟩ | ⟨h1, h2, e, h3, h4⟩
+  · simp [h2, h1]
+  · simp [h1, h2, h3, eq_comm]
+  · simp [h3, h2]
+
+theorem fromRaw_decode_iff (k : Kind) (raw : RawAttr) :
+    (∃ v, fromRaw k raw = .ok v) ↔ raw.ty = Spec.code k ∧ Spec.accept k raw.value = true := by
+  simp only [fromRaw_ok_iff]
+  constructor
+  · rintro ⟨v, h1, h2, _⟩; exact ⟨h1, h2⟩
+  · rintro ⟨h1, h2⟩; exact ⟨_, h1, h2, rfl⟩
+
+theorem fromRaw_wrong_type (k : Kind) (raw : RawAttr) (h : raw.ty ≠ Spec.code k) :
+    fromRaw k raw = .error .wrongImpl := by
+  rcases decChar k raw with ⟨_, h2⟩ | ⟨h1, _⟩ | ⟨h1, _⟩
+  · exact h2
+  · exact absurd h1 h
+  · exact absurd h1 h
+
+theorem fromRaw_no_fault (k : Kind) (raw : RawAttr) (f : Fault) :
+    fromRaw k raw ≠ .error (.fault f) := by
+  rcases decChar k raw with ⟨_, h2⟩ | ⟨_, _, h3⟩ | ⟨_, _, e, h3, h4⟩
+  · rw [h2]; intro h; cases h
+  · rw [h3]; intro h; cases h
+  · rw [h3]; intro h; cases h; cases h4
+
+theorem code_eq (k : Kind) : k.code = Spec.code k := by cases k <;> rfl
+
+theorem fromRaw_roundtrip (v : AttrVal) (h : v.inLimit = true) : fromRaw v.kind v.toRaw = .ok v := by
+  rw [fromRaw_ok_iff]
+  exact ⟨code_eq _, accept_valueBytes v h, (fields_valueBytes v h).symm⟩
+
+/-- `decoded_inLimit` holds for values that fit the 16-bit attribute length field (and for every
+    kind except the three unbounded lists / strings without that restriction) -/
+theorem fromRaw_inLimit (k : Kind) (raw : RawAttr) (v : AttrVal) (h : fromRaw k raw = .ok v)
+    (hl : raw.value.length < 65536 ∨
+      (k ≠ .alternateDomain ∧ k ≠ .unknownAttributes ∧ k ≠ .passwordAlgorithms)) :
+    v.inLimit = true ∧ v.kind = k := by
+  obtain ⟨_, h2, rfl⟩ := (fromRaw_ok_iff k raw v).mp h
+  exact ⟨fields_inLimit k raw.value h2 hl, fields_kind k raw.value⟩
+
+theorem fromRaw_reencode_exact (k : Kind) (raw : RawAttr) (v : AttrVal) (h : fromRaw k raw = .ok v)
+    (hk : k ≠ .xorMappedAddress ∧ k ≠ .alternateServer ∧ k ≠ .errorCode) :
+    v.toRaw = raw := by
+  obtain ⟨h1, h2, rfl⟩ := (fromRaw_ok_iff k raw _).mp h
+  obtain ⟨ty, val⟩ := raw
+  simp only [AttrVal.toRaw, fields_kind, valueBytes_fields k val h2 hk, code_eq]
+  simp at h1
+  rw [h1]
+
+/-- `stable` without going through `decoded_inLimit` (which fails for over-long values) -/
+theorem fromRaw_stable (k : Kind) (raw : RawAttr) (v : AttrVal) (h : fromRaw k raw = .ok v) :
+    fromRaw k v.toRaw = .ok v := by
+  by_cases hk : k ≠ .xorMappedAddress ∧ k ≠ .alternateServer ∧ k ≠ .errorCode
+  · rw [fromRaw_reencode_exact k raw v h hk]; exact h
+  · have hl : k ≠ .alternateDomain ∧ k ≠ .unknownAttributes ∧ k ≠ .passwordAlgorithms := by
+      cases k <;> simp at hk ⊢
+    obtain ⟨h1, h2⟩ := fromRaw_inLimit k raw v h (Or.inr hl)
+    subst h2
+    exact fromRaw_roundtrip v h1
+
 end StunVerif
